@@ -369,6 +369,156 @@ example : scanSql ['a', '$', 'x', '.', 'y', ';', '$', '$', '$', '(', '\'', ')', 
     .ok [.text ['a'], .expr ['x', '.', 'y'] true, .text [], .dollar, .text [], .expr ['(', '\'', ')', '\'', ')'] false, .text []] := by
   rfl
 
+/-! ### the converse: a well-formed token list is found again in its rendering -/
+
+/-- the expression text `e` (closed by `;` iff `semi`) followed by the rest `R` of the statement is cut exactly after
+    itself by `parse_expr` -/
+def ExprOk (e : List Char) (semi : Bool) (R : List Char) : Prop :=
+  e ≠ [] ∧
+  parseExpr ((e ++ (if semi then [';'] else [])) ++ R) = some (e.length + (if semi then 1 else 0)) ∧
+  (semi = false → e.getLast? ≠ some ';')
+
+/-- the token lists the scanner produces: text (without `$`, possibly empty) around every `$$` / `$`-expression, each
+    expression being cut off correctly by `parse_expr` in front of what follows it -/
+inductive WF : List Tok → Prop
+  | last (t : List Char) : '$' ∉ t → WF [.text t]
+  | dollar (t : List Char) (rest : List Tok) : '$' ∉ t → WF rest → WF (.text t :: .dollar :: rest)
+  | expr (t e : List Char) (semi : Bool) (rest : List Tok) :
+      '$' ∉ t → ExprOk e semi (render rest) → WF rest → WF (.text t :: .expr e semi :: rest)
+
+private theorem split_at_dollar (t r : List Char) (h : '$' ∉ t) :
+    (t ++ '$' :: r).takeWhile (· != '$') = t ∧ (t ++ '$' :: r).dropWhile (· != '$') = '$' :: r := by
+  induction t with
+  | nil => simp
+  | cons c t ih =>
+    have hc : c ≠ '$' := fun e => h (by rw [e]; exact List.mem_cons_self)
+    have ht : '$' ∉ t := fun e => h (List.mem_cons_of_mem _ e)
+    obtain ⟨i1, i2⟩ := ih ht
+    simp [hc, i1, i2]
+
+private theorem split_no_dollar (t : List Char) (h : '$' ∉ t) :
+    t.takeWhile (· != '$') = t ∧ t.dropWhile (· != '$') = [] := by
+  induction t with
+  | nil => simp
+  | cons c t ih =>
+    have hc : c ≠ '$' := fun e => h (by rw [e]; exact List.mem_cons_self)
+    have ht : '$' ∉ t := fun e => h (List.mem_cons_of_mem _ e)
+    obtain ⟨i1, i2⟩ := ih ht
+    simp [hc, i1, i2]
+
+private theorem parseExpr_head (c : Char) (r : List Char) (n : Nat) (h : parseExpr (c :: r) = some n) : c ≠ '$' := by
+  intro hc
+  subst hc
+  simp [parseExpr, isIdStart] at h
+
+private theorem cutSemi_of (e : List Char) (semi : Bool) (h : semi = false → e.getLast? ≠ some ';') :
+    cutSemi (e ++ (if semi then [';'] else [])) = (e, semi) := by
+  cases semi with
+  | true => simp [cutSemi]
+  | false => simp [cutSemi, h rfl]
+
+private theorem scan_of_render (toks : List Tok) (h : WF toks) :
+    ∀ fuel, (render toks).length < fuel → scan fuel (render toks) = .ok toks := by
+  induction h with
+  | last t ht =>
+    intro fuel hf
+    cases fuel with
+    | zero => omega
+    | succ n =>
+      have hr : render [Tok.text t] = t := by simp [render, renderTok]
+      obtain ⟨s1, s2⟩ := split_no_dollar t ht
+      rw [hr]; simp only [scan, s1, s2]
+  | dollar t rest ht _ ih =>
+    intro fuel hf
+    cases fuel with
+    | zero => omega
+    | succ n =>
+      have hr : render (Tok.text t :: Tok.dollar :: rest) = t ++ '$' :: '$' :: render rest := by
+        simp [render, renderTok]
+      obtain ⟨s1, s2⟩ := split_at_dollar t ('$' :: render rest) ht
+      rw [hr] at hf ⊢
+      have hlen : (render rest).length < n := by simp only [List.length_append, List.length_cons] at hf; omega
+      simp only [scan, s1, s2, if_true, ih n hlen]
+      rfl
+  | expr t e semi rest ht hok _ ih =>
+    intro fuel hf
+    cases fuel with
+    | zero => omega
+    | succ n =>
+      obtain ⟨hne, hpe, hsemi⟩ := hok
+      have hr : render (Tok.text t :: Tok.expr e semi :: rest) =
+          t ++ '$' :: ((e ++ (if semi then [';'] else [])) ++ render rest) := by
+        simp [render, renderTok]
+      obtain ⟨s1, s2⟩ := split_at_dollar t ((e ++ (if semi then [';'] else [])) ++ render rest) ht
+      rw [hr] at hf ⊢
+      cases hcr : (e ++ (if semi then [';'] else [])) ++ render rest with
+      | nil => cases e with
+        | nil => exact absurd rfl hne
+        | cons a b => simp at hcr
+      | cons c r =>
+        rw [hcr] at hpe s1 s2 hf
+        have hc : c ≠ '$' := parseExpr_head c r _ hpe
+        have hlenE : (e ++ (if semi then [';'] else [])).length = e.length + (if semi then 1 else 0) := by
+          cases semi <;> simp
+        have htake : List.take (e.length + (if semi then 1 else 0)) (c :: r) = e ++ (if semi then [';'] else []) := by
+          rw [← hcr]; exact List.take_left' hlenE
+        have hdrop : List.drop (e.length + (if semi then 1 else 0)) (c :: r) = render rest := by
+          rw [← hcr]; exact List.drop_left' hlenE
+        have hlen : (render rest).length < n := by
+          have : (c :: r).length = (e ++ (if semi then [';'] else [])).length + (render rest).length := by
+            rw [← hcr, List.length_append]
+          simp only [List.length_append, List.length_cons] at hf this
+          omega
+        simp only [scan, s1, s2, hc, if_false, hpe, htake, hdrop, cutSemi_of e semi hsemi, ih n hlen]
+        rfl
+
+/-- the converse of `C30_scan_render`, for ALL well-formed token lists: scanning the rendering of the list gives the
+    list back — the token model and the string are the same thing (rendering is injective on well-formed lists) -/
+theorem C30_scan_of_render (toks : List Tok) (h : WF toks) : scanSql (render toks) = .ok toks :=
+  scan_of_render toks h _ (by omega)
+
+theorem C30_render_injective (a b : List Tok) (ha : WF a) (hb : WF b) (h : render a = render b) : a = b := by
+  have h1 := C30_scan_of_render a ha
+  have h2 := C30_scan_of_render b hb
+  rw [h] at h1
+  rw [h1] at h2
+  exact Except.ok.inj h2
+
+/-- non-vacuity and the common case: a plain name followed by a character that cannot continue an expression
+    (not a word character, not white space, none of `; . ( [`) is cut off exactly after the name -/
+theorem C30_name_ok (c : Char) (w : List Char) (d : Char) (R : List Char)
+    (hc : isIdStart c = true) (hw : ∀ x ∈ w, isWord x = true)
+    (hd : isWord d = false ∧ isSpace d = false ∧ d ≠ ';' ∧ d ≠ '.' ∧ d ≠ '(' ∧ d ≠ '[') :
+    ExprOk (c :: w) false (d :: R) := by
+  have hspan : ∀ (w : List Char), (∀ x ∈ w, isWord x = true) → spanLen isWord (w ++ d :: R) = w.length := by
+    intro w hw
+    induction w with
+    | nil => simp [spanLen, hd.1]
+    | cons a w ih =>
+      have ha := hw a List.mem_cons_self
+      simp [spanLen, ha, ih (fun x hx => hw x (List.mem_cons_of_mem _ hx))]
+  refine ⟨by simp, ?_, ?_⟩
+  · simp only [Bool.false_eq_true, if_false, List.append_nil, List.cons_append, parseExpr, hc, if_true, hspan w hw]
+    have hdrop : List.drop (1 + w.length) (c :: (w ++ d :: R)) = d :: R := by
+      have : c :: (w ++ d :: R) = (c :: w) ++ d :: R := rfl
+      rw [this]; exact List.drop_left' (by simp; omega)
+    rw [hdrop]
+    simp [exprTail, spanLen, hd.2.1, hd.2.2.1, hd.2.2.2.1, hd.2.2.2.2.1, hd.2.2.2.2.2]
+    omega
+  · intro _
+    have : ∀ x ∈ c :: w, x ≠ ';' := by
+      intro x hx
+      rcases List.mem_cons.mp hx with rfl | hx
+      · intro e; rw [e] at hc; simp [isIdStart] at hc
+      · intro e; have := hw x hx; rw [e] at this; simp [isWord] at this
+    intro hl
+    have hm : (';' : Char) ∈ c :: w := List.mem_of_getLast? hl
+    exact this ';' hm rfl
+
+example : WF [.text ['a', '='], .expr ['x', '1'] false, .text [',', ' '], .dollar, .text []] :=
+  .expr _ _ _ _ (by decide) (C30_name_ok 'x' ['1'] ',' _ (by decide) (by decide) (by decide))
+    (.dollar _ _ (by decide) (.last _ (by decide)))
+
 /-! ### cache transparency, for all histories -/
 
 /-- every entry of the cache is the cold adaptation of its own key -/
